@@ -116,7 +116,13 @@ def generate(seed, tier="quick"):
                 ('AT(p=1, q=snapshot(3))', ["dc", "AT", [["p", ["int", 1]]]], ["dc", "AT", [["p", ["int", 1]], ["q", ["int", 4]]]]),
                 ('PM(m=0, n=Is(1))', ["dc", "PM", [["m", ["int", 0]]]], ["dc", "PM", [["m", ["int", 5]]]]),
                 ('NTD(f=1, g=Is(5))', ["dc", "NTD", [["f", ["int", 1]]]], ["dc", "NTD", [["f", ["int", 1]], ["g", ["int", 6]]]]),
+                # the argument is a module-level constant, not a constructor call written in place
+                ('KDC', ["dc", "DC", [["a", ["int", 1]]]], ["dc", "DC", [["a", ["int", 2]]]]),
+                ('KNT', ["dc", "NT", [["f", ["int", 1]], ["g", ["int", 2]]]], ["dc", "NT", [["f", ["int", 1]], ["g", ["int", 3]]]]),
             ])
+            if arg in ("KDC", "KNT"):
+                f["header"] = dict(f.get("header") or {})
+                f["header"]["pre"] = list(f["header"].get("pre", [])) + ["KDC = DC(a=1)", "KNT = NT(f=1, g=2)"]
             f["sites"][sid] = {"op": "eq", "place": xr.choice(["func", "lam"]), "arg": arg, "prev": good, "wrapped": True}
             seq = [good, bad, good]
             xr.shuffle(seq)
@@ -185,7 +191,7 @@ def execute(case, ctx):
             src[sid] = MISSING if call.arg_text is None else P.eval_arg(call.arg_text)
         except Exception:
             site = sidx[sid][1]
-            if site.get("name") == "kq" and site.get("prev") is not None:
+            if (site.get("name") == "kq" or site.get("arg") in ("KDC", "KNT")) and site.get("prev") is not None:
                 src[sid] = V.pyval(site["prev"])  # the argument reads a module-level name of its own file: the program says what it evaluates to
                 continue
             out["discards"]["stored-argument-does-not-evaluate"] = 1
